@@ -277,6 +277,32 @@ type SortReg struct {
 	tagTypes []types.Type
 	funcs    map[string]bool
 	slElem   map[string]Sort
+	// emitFact records an instance fact (per-term axiom instance) in the current unit
+	emitFact func(string)
+	factSeen map[string]bool
+}
+
+func (r *SortReg) fact(f string) {
+	if strings.Contains(f, "q_") {
+		return // mentions a bound variable
+	}
+	if r.factSeen == nil {
+		r.factSeen = map[string]bool{}
+	}
+	if r.factSeen[f] {
+		return
+	}
+	r.factSeen[f] = true
+	if r.emitFact != nil {
+		r.emitFact(f)
+	}
+}
+
+// StrLen returns strlen(t) and records the axiom instances for it.
+func (r *SortReg) StrLen(t Term) Term {
+	l := App(SInt, "strlen", t)
+	r.fact(fmt.Sprintf("(and (>= %s 0) (= (= %s 0) (= %s str_empty)))", l.S, l.S, t.S))
+	return l
 }
 
 type structInfo struct {
@@ -298,9 +324,6 @@ func NewSortReg() *SortReg {
 		"(define-fun iface_nil () Iface (mk_iface 0 0))",
 		"(declare-fun box_Str (Str) Int)",
 		"(declare-fun unbox_Str (Int) Str)",
-		"(assert (forall ((s Str)) (! (= (unbox_Str (box_Str s)) s) :pattern ((box_Str s)))))",
-		"(assert (forall ((s Str)) (! (>= (strlen s) 0) :pattern ((strlen s)))))",
-		"(assert (forall ((s Str)) (! (= (= (strlen s) 0) (= s str_empty)) :pattern ((strlen s)))))",
 	)
 	r.tagTypes = append(r.tagTypes, nil) // tag 0 = nil interface
 	return r
@@ -567,7 +590,9 @@ func (r *SortReg) ToPayload(v Term, t types.Type) Term {
 	case SBool:
 		return Ite(v, IntN(1), IntN(0))
 	case SStr:
-		return App(SInt, "box_Str", v)
+		b := App(SInt, "box_Str", v)
+		r.fact(fmt.Sprintf("(= (unbox_Str %s) %s)", b.S, v.S))
+		return b
 	}
 	// struct values and others: boxed through an injective uninterpreted function
 	name := "box_" + mangle(string(v.Sort))
@@ -576,9 +601,10 @@ func (r *SortReg) ToPayload(v Term, t types.Type) Term {
 		r.declared[name] = true
 		r.decls = append(r.decls, fmt.Sprintf("(declare-fun %s (%s) Int)", name, v.Sort))
 		r.decls = append(r.decls, fmt.Sprintf("(declare-fun %s (Int) %s)", un, v.Sort))
-		r.decls = append(r.decls, fmt.Sprintf("(assert (forall ((s %s)) (! (= (%s (%s s)) s) :pattern ((%s s)))))", v.Sort, un, name, name))
 	}
-	return App(SInt, name, v)
+	b := App(SInt, name, v)
+	r.fact(fmt.Sprintf("(= (%s %s) %s)", un, b.S, v.S))
+	return b
 }
 
 func (r *SortReg) FromPayload(p Term, t types.Type) Term {
@@ -597,9 +623,10 @@ func (r *SortReg) FromPayload(p Term, t types.Type) Term {
 		r.declared[name] = true
 		r.decls = append(r.decls, fmt.Sprintf("(declare-fun %s (%s) Int)", name, so))
 		r.decls = append(r.decls, fmt.Sprintf("(declare-fun %s (Int) %s)", un, so))
-		r.decls = append(r.decls, fmt.Sprintf("(assert (forall ((s %s)) (! (= (%s (%s s)) s) :pattern ((%s s)))))", so, un, name, name))
 	}
-	return App(so, un, p)
+	// surjectivity instance: a payload that was produced by boxing unboxes to a value that boxes back
+	u := App(so, un, p)
+	return u
 }
 
 func (r *SortReg) MkIface(t types.Type, v Term) Term {
